@@ -226,4 +226,160 @@ theorem textCmp_ge (a b : Str) : strLe b a = (Spec.textCmp a b != .lt) := by
 theorem textCmp_le (a b : Str) : strLe a b = (Spec.textCmp a b != .gt) := by
   unfold strLe; rw [textCmp_gt]; cases Spec.textCmp a b <;> rfl
 
+/-! ## `decCmp` compares the denoted decimals: a total preorder, `.eq` an equivalence -/
+
+theorem compare_mul_pos (a b c : Int) (hc : 0 < c) : compare (a * c) (b * c) = compare a b := by
+  rcases Int.lt_trichotomy a b with h | h | h
+  · have : a * c < b * c := Int.mul_lt_mul_of_pos_right h hc
+    rw [Int.compare_eq_lt.mpr this, Int.compare_eq_lt.mpr h]
+  · subst h; simp
+  · have : b * c < a * c := Int.mul_lt_mul_of_pos_right h hc
+    rw [Int.compare_eq_gt.mpr this, Int.compare_eq_gt.mpr h]
+
+/-- The scaled integer `m × 10^(e - L)` (for `L ≤ e`). -/
+def scaled (m e L : Int) : Int := m * (10 : Int) ^ (e - L).toNat
+
+/-- `decCmp` may be computed at any common exponent below both. -/
+theorem decCmp_common (m1 e1 m2 e2 L : Int) (h1 : L ≤ e1) (h2 : L ≤ e2) :
+    decCmp m1 e1 m2 e2 = compare (scaled m1 e1 L) (scaled m2 e2 L) := by
+  unfold decCmp scaled
+  simp only []
+  have a1 : (e1 - L).toNat = (e1 - min e1 e2).toNat + (min e1 e2 - L).toNat := by omega
+  have a2 : (e2 - L).toNat = (e2 - min e1 e2).toNat + (min e1 e2 - L).toNat := by omega
+  rw [a1, a2, Int.pow_add, Int.pow_add, ← Int.mul_assoc, ← Int.mul_assoc]
+  exact (compare_mul_pos _ _ _ (Int.pow_pos (by decide))).symm
+
+theorem decCmp_refl (m e : Int) : decCmp m e m e = .eq := by
+  rw [decCmp_common m e m e e (Int.le_refl _) (Int.le_refl _)]; simp
+
+theorem decCmp_eq_iff (m1 e1 m2 e2 L : Int) (h1 : L ≤ e1) (h2 : L ≤ e2) :
+    decCmp m1 e1 m2 e2 = .eq ↔ scaled m1 e1 L = scaled m2 e2 L := by
+  rw [decCmp_common m1 e1 m2 e2 L h1 h2, Int.compare_eq_eq]
+
+theorem decCmp_gt_iff (m1 e1 m2 e2 L : Int) (h1 : L ≤ e1) (h2 : L ≤ e2) :
+    decCmp m1 e1 m2 e2 = .gt ↔ scaled m2 e2 L < scaled m1 e1 L := by
+  rw [decCmp_common m1 e1 m2 e2 L h1 h2, Int.compare_eq_gt]
+
+theorem decCmp_lt_iff (m1 e1 m2 e2 L : Int) (h1 : L ≤ e1) (h2 : L ≤ e2) :
+    decCmp m1 e1 m2 e2 = .lt ↔ scaled m1 e1 L < scaled m2 e2 L := by
+  rw [decCmp_common m1 e1 m2 e2 L h1 h2, Int.compare_eq_lt]
+
+/-- `≤` on decimals. -/
+def decLe (m1 e1 m2 e2 : Int) : Bool := decCmp m1 e1 m2 e2 != .gt
+
+theorem decLe_iff (m1 e1 m2 e2 L : Int) (h1 : L ≤ e1) (h2 : L ≤ e2) :
+    decLe m1 e1 m2 e2 = true ↔ scaled m1 e1 L ≤ scaled m2 e2 L := by
+  unfold decLe
+  rw [bne_iff_ne, Ne, decCmp_gt_iff m1 e1 m2 e2 L h1 h2]; omega
+
+theorem decLe_total (m1 e1 m2 e2 : Int) : decLe m1 e1 m2 e2 = true ∨ decLe m2 e2 m1 e1 = true := by
+  rw [decLe_iff m1 e1 m2 e2 (min e1 e2) (by omega) (by omega),
+      decLe_iff m2 e2 m1 e1 (min e1 e2) (by omega) (by omega)]; omega
+
+theorem decLe_trans (m1 e1 m2 e2 m3 e3 : Int) (h12 : decLe m1 e1 m2 e2 = true) (h23 : decLe m2 e2 m3 e3 = true) :
+    decLe m1 e1 m3 e3 = true := by
+  have L1 : min e1 (min e2 e3) ≤ e1 := by omega
+  have L2 : min e1 (min e2 e3) ≤ e2 := by omega
+  have L3 : min e1 (min e2 e3) ≤ e3 := by omega
+  rw [decLe_iff _ _ _ _ _ L1 L2] at h12
+  rw [decLe_iff _ _ _ _ _ L2 L3] at h23
+  rw [decLe_iff _ _ _ _ _ L1 L3]; omega
+
+/-- the loop's strict test is the negation of `≤` … -/
+theorem decCmp_gt_eq (m1 e1 m2 e2 : Int) : (decCmp m1 e1 m2 e2 == .gt) = !decLe m1 e1 m2 e2 := by
+  unfold decLe; cases decCmp m1 e1 m2 e2 <;> rfl
+
+theorem decCmp_lt_eq (m1 e1 m2 e2 : Int) : (decCmp m1 e1 m2 e2 == .lt) = !decLe m2 e2 m1 e1 := by
+  have L1 : min e1 e2 ≤ e1 := by omega
+  have L2 : min e1 e2 ≤ e2 := by omega
+  rw [Bool.eq_iff_iff, beq_iff_eq, decCmp_lt_iff _ _ _ _ _ L1 L2, Bool.not_eq_true', ← Bool.not_eq_true,
+    decLe_iff _ _ _ _ _ L2 L1]; omega
+
+/-- … and its equality test is `≤` both ways. -/
+theorem decCmp_eq_eq (m1 e1 m2 e2 : Int) :
+    (decCmp m1 e1 m2 e2 == .eq) = (decLe m1 e1 m2 e2 && decLe m2 e2 m1 e1) := by
+  have L1 : min e1 e2 ≤ e1 := by omega
+  have L2 : min e1 e2 ≤ e2 := by omega
+  rw [Bool.eq_iff_iff, beq_iff_eq, decCmp_eq_iff _ _ _ _ _ L1 L2, Bool.and_eq_true,
+    decLe_iff _ _ _ _ _ L1 L2, decLe_iff _ _ _ _ _ L2 L1]; omega
+
+theorem decCmp_eq_symm (m1 e1 m2 e2 : Int) (h : decCmp m1 e1 m2 e2 = .eq) : decCmp m2 e2 m1 e1 = .eq := by
+  have L1 : min e1 e2 ≤ e1 := by omega
+  have L2 : min e1 e2 ≤ e2 := by omega
+  rw [decCmp_eq_iff _ _ _ _ _ L1 L2] at h
+  rw [decCmp_eq_iff _ _ _ _ _ L2 L1]; exact h.symm
+
+theorem decCmp_eq_trans (m1 e1 m2 e2 m3 e3 : Int) (h12 : decCmp m1 e1 m2 e2 = .eq)
+    (h23 : decCmp m2 e2 m3 e3 = .eq) : decCmp m1 e1 m3 e3 = .eq := by
+  have L1 : min e1 (min e2 e3) ≤ e1 := by omega
+  have L2 : min e1 (min e2 e3) ≤ e2 := by omega
+  have L3 : min e1 (min e2 e3) ≤ e3 := by omega
+  rw [decCmp_eq_iff _ _ _ _ _ L1 L2] at h12
+  rw [decCmp_eq_iff _ _ _ _ _ L2 L3] at h23
+  rw [decCmp_eq_iff _ _ _ _ _ L1 L3]; exact h12.trans h23
+
+/-! ## `strLt` is a strict total order -/
+
+theorem strLt_trans : ∀ (a b c : Str), strLt a b = true → strLt b c = true → strLt a c = true
+  | [], [], _, h, _ => by simp [strLt] at h
+  | [], _ :: _, [], _, h => by simp [strLt] at h
+  | [], _ :: _, _ :: _, _, _ => by simp [strLt]
+  | _ :: _, [], _, h, _ => by simp [strLt] at h
+  | _ :: _, _ :: _, [], _, h => by simp [strLt] at h
+  | a :: as, b :: bs, c :: cs, h1, h2 => by
+    unfold strLt at h1 h2 ⊢
+    by_cases ab : a.toNat < b.toNat
+    · by_cases bc : b.toNat < c.toNat
+      · have : a.toNat < c.toNat := by omega
+        simp [this]
+      · by_cases cb : c.toNat < b.toNat
+        · simp [bc, cb] at h2
+        · have : a.toNat < c.toNat := by omega
+          simp [this]
+    · by_cases ba : b.toNat < a.toNat
+      · simp [ab, ba] at h1
+      · simp only [ab, ba, if_false] at h1
+        by_cases bc : b.toNat < c.toNat
+        · have : a.toNat < c.toNat := by omega
+          simp [this]
+        · by_cases cb : c.toNat < b.toNat
+          · simp [bc, cb] at h2
+          · simp only [bc, cb, if_false] at h2
+            have x1 : ¬ a.toNat < c.toNat := by omega
+            have x2 : ¬ c.toNat < a.toNat := by omega
+            simp only [x1, x2, if_false]
+            exact strLt_trans as bs cs h1 h2
+
+theorem strLe_refl (a : Str) : strLe a a = true := by simp [strLe, strLt_irrefl]
+
+theorem strLe_total (a b : Str) : strLe a b = true ∨ strLe b a = true := by
+  unfold strLe
+  rcases strLt_total a b with h | h | h
+  · left; simp [strLt_asymm a b h]
+  · subst h; simp [strLt_irrefl]
+  · right; simp [strLt_asymm b a h]
+
+theorem strLe_trans (a b c : Str) (h1 : strLe a b = true) (h2 : strLe b c = true) : strLe a c = true := by
+  unfold strLe at *
+  cases hca : strLt c a with
+  | false => rfl
+  | true =>
+    exfalso
+    rcases strLt_total a b with h | h | h
+    · have := strLt_trans c a b hca h; simp [this] at h2
+    · subst h; simp [hca] at h2
+    · simp [h] at h1
+
+/-- `≤` both ways is equality. -/
+theorem strLe_antisymm_iff (a b : Str) : (a == b) = (strLe a b && strLe b a) := by
+  rw [Bool.eq_iff_iff, beq_iff_eq, Bool.and_eq_true]
+  unfold strLe
+  constructor
+  · intro h; subst h; simp [strLt_irrefl]
+  · intro ⟨h1, h2⟩
+    rcases strLt_total a b with h | h | h
+    · simp [h] at h2
+    · exact h
+    · simp [h] at h1
+
 end Ypv
